@@ -97,6 +97,61 @@ pub fn walk_case(files: &Files, with_positions: bool) -> Vec<(&'static str, Json
     ]
 }
 
+/// C19: every tree (syntax stage and validated) through a RON round trip, plus the log of the
+/// fields the derived `Serialize` actually emits
+pub fn impl_serde(files: &Files) -> Json {
+    let r = catch_unwind(AssertUnwindSafe(|| {
+        let mut p: Parser<String> = Parser::new();
+        for (id, text) in files {
+            p.add_content(id.clone(), text);
+        }
+        let out = p.validate();
+        let mut ids: Vec<&String> = out.keys().collect();
+        ids.sort();
+        let mut trees = Vec::new();
+        let mut check = |id: &str, stage: &str, a: &aidl_parser::ast::Aidl, trees: &mut Vec<Json>| {
+            let text = ron::to_string(a);
+            let (rt_ok, err) = match &text {
+                Ok(t) => match ron::from_str::<aidl_parser::ast::Aidl>(t) {
+                    Ok(b) => (&b == a, String::new()),
+                    Err(e) => (false, format!("deserialise: {}", e)),
+                },
+                Err(e) => (false, format!("serialise: {}", e)),
+            };
+            let log = crate::serde_rec::record(a).unwrap_or_default();
+            trees.push(Json::obj(vec![
+                ("id", Json::s(id)),
+                ("stage", Json::s(stage)),
+                ("ast", dump::aidl(a)),
+                ("roundtrip_equal", Json::Bool(rt_ok)),
+                ("error", Json::s(err)),
+                ("ron", Json::s(if rt_ok { String::new() } else { text.unwrap_or_default() })),
+                (
+                    "emitted",
+                    Json::Arr(
+                        log.into_iter()
+                            .map(|(n, fs)| Json::Arr(vec![Json::s(n), Json::Arr(fs.into_iter().map(Json::s).collect())]))
+                            .collect(),
+                    ),
+                ),
+            ]));
+        };
+        for id in ids {
+            if let Some(a) = &p.verif_parse_results()[id].ast {
+                check(id, "parsed", a, &mut trees);
+            }
+            if let Some(a) = &out[id].ast {
+                check(id, "validated", a, &mut trees);
+            }
+        }
+        Json::obj(vec![("outcome", Json::s("ok")), ("trees", Json::Arr(trees))])
+    }));
+    match r {
+        Ok(j) => j,
+        Err(e) => Json::obj(vec![("outcome", Json::s("panic")), ("msg", Json::s(panic_msg(e)))]),
+    }
+}
+
 pub fn validate_case(files: &Files) -> Vec<(&'static str, Json)> {
     vec![("op", Json::s("validate")), ("files", files_json(files)), ("impl", impl_validate(files))]
 }
@@ -604,6 +659,25 @@ pub fn run(suite: &str, thorough: bool, seed: u64, shard: usize, nshards: usize,
                 );
             }
         }
+        // C19: serde round trip of parsed and validated trees
+        "serde" => {
+            let n = share(if thorough { 8000 } else { 200 });
+            for _ in 0..n {
+                let s = rng.next();
+                let mut r = Rng::new(s);
+                let cfg = gen::DocCfg::default();
+                let proj = gen::gen_project(&mut r, &cfg);
+                let files = render_project(&proj, LayoutStyle::Plain, &mut r);
+                em.case(s, vec![("op", Json::s("serde")), ("files", files_json(&files)), ("impl", impl_serde(&files))]);
+            }
+            // the 17 categories and every direction / oneway combination once
+            let mut files = category_defs();
+            let args: Vec<String> = CATEGORY_TYPES.iter().enumerate().map(|(i, (_, t))| format!("{}{} a{}", ["", "in ", "out ", "inout "][i % 4], t, i)).collect();
+            files.push(("main".to_owned(), format!("package m;\n{}\n/** doc */\n@A(x=1) oneway interface Main {{\n    /** d */ oneway void f({}) = 3;\n    void g();\n    const int C = 1;\n}}\n", CATEGORY_PRELUDE, args.join(", "))));
+            if mine(0) {
+                em.case(0, vec![("op", Json::s("serde")), ("files", files_json(&files)), ("impl", impl_serde(&files))]);
+            }
+        }
         _ => {
             eprintln!("unknown suite {}", suite);
             std::process::exit(2);
@@ -632,6 +706,8 @@ pub fn rerun(line: &str) -> Option<String> {
             let wp = matches!(j.get("positions"), Some(Json::Bool(true)));
             v.append(&mut walk_case(&files, wp))
         }
+        "serde" => v.append(&mut vec![("op", Json::s("serde")), ("files", files_json(&files)), ("impl", impl_serde(&files))]),
+        "determinism" => v.append(&mut crate::store_ops::determinism_case(&files, &mut Rng::new(1))),
         _ => return None,
     }
     Some(Json::obj(v).to_string())
